@@ -83,7 +83,7 @@ Section C06.
   (** refinement, straight pieces: in exact arithmetic the straight-piece computation of the model of
       distance_point_from_curved_planes (local frame with the second axis pointing up, piece starting at
       (bx, by), check point at arclength a and normal offset d) returns the specification's end point,
-      admissibility, distance and arclength.  (Arcs: compared executably on every run, not proved.) *)
+      admissibility, distance and arclength. *)
   Theorem C06_model_refines_spec_straight : forall sr bx by_ L th a d, 0 < L ->
     let cp := (bx + a * cos th - d * sin th, by_ - (a * sin th + d * cos th)) in
     let p := {| pc_len := L; pc_top := th; pc_bot := th |} in
@@ -94,6 +94,30 @@ Section C06.
     | None => pe_ok e = false
     end.
   Proof. intros sr bx by_ L th a d HL. exact (straight_piece_refines_spec sp sr bx by_ L th a d HL). Qed.
+
+  (** refinement, arcs: for the generic centre construction (top dip at least 1e-8 away from the vertical, where the
+      implementation switches to a special case) the arc computation of the model (acos-based angle, frame with the second
+      axis up, centre at begin + sg*R*(-sin t1, -cos t1)) returns the specification's end point, admissibility, distance and
+      arclength for the point whose foot is the arc point of dip phi with normal offset d (not within 2^-52 of the centre) *)
+  Theorem C06_model_refines_spec_arc : special_laws sp -> forall sr bx by_ L t1 t2 phi d,
+    0 < L -> 0 < t1 < PI -> 0 < t2 < PI -> t1 <> t2 -> 1 * powerRZ 10 (-8) <= Rabs (t1 - PI / 2) ->
+    (t1 <= phi <= t2 \/ t2 <= phi <= t1) ->
+    let sg := if Rlt_dec t1 t2 then 1 else -1 in
+    let Rr := L / Rabs (t2 - t1) in
+    let rho := Rr - sg * d in
+    powerRZ 2 (-52) <= rho ->
+    let cp := (bx - sg * Rr * sin t1 + sg * rho * sin phi, by_ - sg * Rr * cos t1 + sg * rho * cos phi) in
+    let p := {| pc_len := L; pc_top := t1; pc_bot := t2 |} in
+    let e := @arc_eval R N bx (sr - by_) p (fst cp) (sr - snd cp) in
+    fst (@arc_piece R N sr (bx, by_) L t1 t2 (t1 - t2) cp) = (pe_ex e, sr - pe_ey e) /\
+    match snd (@arc_piece R N sr (bx, by_) L t1 t2 (t1 - t2) cp) with
+    | Some (dist, along, _) => pe_ok e = true /\ dist = pe_dist e /\ along = pe_along e
+    | None => False
+    end.
+  Proof.
+    intros Law sr bx by_ L t1 t2 phi d HL H1 H2 Hne Hgen Hphi sg Rr rho Hrho cp p e.
+    exact (arc_piece_refines_spec sp sr bx by_ L t1 t2 phi d HL H1 H2 Hne Hgen Hphi Hrho Law).
+  Qed.
 End C06.
 
 Print Assumptions C06_straight.
@@ -101,3 +125,4 @@ Print Assumptions C06_arc_shape.
 Print Assumptions C06_arc.
 Print Assumptions C06_chain.
 Print Assumptions C06_model_refines_spec_straight.
+Print Assumptions C06_model_refines_spec_arc.
